@@ -150,7 +150,7 @@ def build_cases(chk, walks, thorough, only=None, obj_walks=None):
     reg = lib_seeded.registry()
     if only:
         keys = [k for k in keys if k in only]
-    nrand = 120 if thorough else 6
+    nrand = 60 if thorough else 6
     cases = []
     index = {k: n for n, k in enumerate(lib_seeded.entry_keys())}
     for ek in keys:
@@ -169,8 +169,9 @@ def build_cases(chk, walks, thorough, only=None, obj_walks=None):
                               "altkind": "float32", "prefit": "none", "seedform": "int", "genform": "RandomState"})
             continue
         hist = [("w%03d" % k, w) for k, w in enumerate(obj_walks if isobj else walks)]
-        if slow and not thorough:
-            hist = hist[::4]
+        if not thorough:      # quick: rotate the walks over the entries (every edge still on half / a quarter of the entries)
+            step = 4 if slow else 2
+            hist = hist[index[ek] % step::step]
         for k in range(nrand if not slow else max(2, nrand // 3)):
             hist.append(("r%03d" % k, random_history(rng, rng.randint(6, 20 if thorough else 14), with_obj=isobj)))
         ncache = 0
@@ -193,7 +194,7 @@ def build_cases(chk, walks, thorough, only=None, obj_walks=None):
                           "seeds": real_seeds(rng, oor), "genseed": GENSEED, "objseed": OBJSEED, "start": rng.randrange(0, 2**32),
                           "flavour": rng.randrange(0, 4),
                           # what the "alt" entry of this trace is: the routine on the float32 / on a complex twin of the arguments
-                          "altkind": "complex128" if hid.startswith("k") else "float32" if plain else rng.choice(["float32", "complex128"]),
+                          "altkind": "complex128" if hid.startswith("k") else "float32" if plain else rng.choice(["float32", "complex128", "special"]),
                           # the FORM in which the seed / the generator is handed over (see lib_seeded.SEEDFORMS / GENFORMS)
                           "prefit": rng.choice(["none", "none", "other", "failing"]),     # class entries: the object's past
                           "seedform": "int" if plain else rng.choice(["int"] * 5 + ["np.int64"]) if oor else
@@ -406,7 +407,7 @@ def run(chk, opts):
     chk.rule = ("every edge of the labelled state graph of RngStreams (%d states, %d transitions, <=%d ops; %d covering walks) plus 2 memo histories (entry and its float32 twin, same seed, both orders, separated by 10 other seeds) and "
                 "%d random histories per entry point (seed %d; 12 seeds, ~10%% of the traces with an out-of-range integer seed, ~15%% with NumPy integer seeds), each replayed on each of %d seed-accepting entry point variants "
                 "(%d public functions/classes) with per-trace random real seeds; class-type entries (%d variants) additionally keep ONE estimator object per trace, constructed with the integer seed, that is re-fitted (FitObj) and cloned from get_params() (CloneFit) along the walks of the graph with those actions (%d transitions); every trace starts under tensorly.tenalg 'core' or 'einsum' and random histories switch it (SwitchBackend); %d routines without random choices (tensor algebra, factorised-tensor functions, option forms) are replayed on their own histories (repeated unseeded calls on the same argument objects across stream use and backend switches); a case = one trace; distinct = distinct (entry, op, "
-                "seeding) steps observed" % (nstates, nedges, 4 if thorough else 3, len(walks), 120 if thorough else 6, chk.seed,
+                "seeding) steps observed" % (nstates, nedges, 4 if thorough else 3, len(walks), 60 if thorough else 6, chk.seed,
                                              nent, len({c["fn"] for c in cases}),
                                              len({c["entry"] for c in cases if any(o["op"] in ("FitObj", "CloneFit") for o in c["ops"])}), gnote2["edges"], len({c["entry"] for c in cases if "/d0" in c["tr"]})))
     for e in events:
